@@ -214,6 +214,21 @@ theorem range_exact {s : Sys} {h : Bytes} (hr : Reach s h) (hl : s.live = true) 
   · simp; omega
   · simp; omega
 
+/-- The reported range only moves forward. Whatever happens between two `DataRange` calls — any schedule of writer, reader, seek and
+    accessor steps in any interleaving — as long as the backlog is still open at the second call, both ends are at least what they were
+    and the width never exceeds the capacity. (What the `stress` cases observe on the real code from concurrent goroutines.) -/
+theorem range_monotone {s : Sys} {h : Bytes} (hr : Reach s h) (hl : s.live = true) (ops : List Op)
+    (hl' : (runH s h ops).1.live = true) :
+    ∃ lo hi lo' hi', (s.step .dataRange).2 = .range lo hi none ∧
+      ((runH s h ops).1.step .dataRange).2 = .range lo' hi' none ∧ lo ≤ lo' ∧ hi ≤ hi' ∧ hi' - lo' ≤ s.size := by
+  have hr' := reach_run hr ops
+  obtain ⟨x, hx⟩ := run_hist_prefix s h ops
+  have hsz := (run_size_live (reach_inv hr) ops).1
+  refine ⟨_, _, _, _, range_exact hr hl, range_exact hr' hl', ?_, ?_, ?_⟩
+  · rw [hx, hsz]; simp only [List.length_append]; omega
+  · rw [hx]; simp
+  · rw [hx, hsz]; simp only [List.length_append]; omega
+
 /-- the promised range of the abstract log is what `DataRange` answers -/
 theorem range_refines_spec {s : Sys} {h : Bytes} (hr : Reach s h) (hl : s.live = true) :
     (s.step .dataRange).2 = .range (s.log h).range.1 (s.log h).range.2 none := by
